@@ -14,7 +14,7 @@ def showDest (d : Dest) : String := s!"{kindStr d.kind}:{toHex d.host}:{d.port}"
 def showOut : Out → String
   | .emit c v6 data d => s!"emit:{c}:{if v6 then "6" else "4"}:{toHex data}:{showDest d}"
   | .tunnel c ip port data src => s!"tunnel:{c}:{toHex ip}:{port}:{toHex data}:{showDest src}"
-  | .resolve c h _ => s!"resolve:{c}:{toHex h}"
+  | .resolve c h _ _ => s!"resolve:{c}:{toHex h}"
   | .loc c how => s!"loc:{c}:{how}"
 
 def b01 (b : Bool) : String := if b then "1" else "0"
